@@ -345,7 +345,7 @@ pub fn run(ctx: &Ctx) -> Report {
     }
     let mut cfg = ZoneCfg::lookup();
     cfg.max_transitions = 40;
-    run_cases(ctx, &mut rep, 1, ctx.n(50_000, 1_000_000), |l, rng, i| {
+    run_cases(ctx, &mut rep, 1, ctx.n(150_000, 2_000_000), |l, rng, i| {
         let mut c = cfg.clone();
         if i % 3 == 0 {
             c.rule = *rng.pick(&[RuleMode::Fixed, RuleMode::Alt]);
@@ -407,7 +407,7 @@ pub fn run(ctx: &Ctx) -> Report {
         l.distinct_enumerated += 1;
     });
     // random malformed tuples
-    run_cases(ctx, &mut rep, 3, ctx.n(50_000, 1_000_000), |l, rng, _| {
+    run_cases(ctx, &mut rep, 3, ctx.n(150_000, 2_000_000), |l, rng, _| {
         let z = gen_garbage(rng);
         judge(l, &z, "random_tuple", None);
         l.op_n("TimeZone::new + TimeZoneRef::new", 2);
